@@ -17,14 +17,14 @@ var bigOne = big.NewInt(1)
 
 // Unit is the generated VC of one function under contract.
 type Unit struct {
-	Func     string
-	Contract *Contract
-	Prelude  string
-	Assumps  []Assump
-	Obligs   []*Oblig
-	Notes    []string
-	Trusted  []string
-	Err      string
+	Func      string
+	Contract  *Contract
+	Prelude   string
+	Assumps   []Assump
+	Obligs    []*Oblig
+	Notes     []string
+	Trusted   []string
+	Err       string
 	ParamInfo []ParamInfo
 	g         *Gen
 	env       *Env
@@ -77,6 +77,7 @@ func verifyFunction(ld *Loader, cs *ContractSet, fn *ssa.Function, c *Contract) 
 				ki := g.keys[k]
 				ki.ref = prevInfo[k].ref
 				ki.valT = prevInfo[k].valT
+				ki.sub = prevInfo[k].sub
 				g.keys[k] = ki
 			}
 			g.loopMods = loopMods
@@ -342,7 +343,6 @@ func (g *Gen) registerAxioms() {
 }
 
 // stubs for extension points -----------------------------------------------------
-
 
 // funcParamCall: a call through a function-typed parameter that has a `funcparam` contract.
 func (fc *FnCtx) funcParamCall(ins ssa.Instruction, cc *ssa.CallCommon, fv Val, args []Val, setResult func([]Val)) bool {
